@@ -28,7 +28,14 @@ def gen_case(rng, idx):
         data = b'\x1f\x8b' + G.gen_log(rng, rng.randint(1, 6))
     elif kind < 0.22:
         data = G.gen_log(rng, 5, final_newline=False)
-    elif kind < 0.34:
+    elif kind < 0.30:
+        # NUL bytes at various offsets (a NUL is an ordinary byte)
+        data = bytearray(G.gen_log(rng, rng.choice([150, 300])))
+        for _ in range(rng.randint(1, 3)):
+            data[rng.choice([5, 700, 4090, 4100, 6000, 8100, 8200]) %
+                 len(data)] = 0
+        data = bytes(data)
+    elif kind < 0.40:
         # carriage returns: CRLF line ends and lone CRs inside lines
         # (progress-bar output) - only LF ends a line
         data = G.gen_log(rng, rng.choice([4, 20, 60]))
@@ -113,6 +120,73 @@ def run(chk):
                 size = os.path.getsize(os.path.join(d, 'x.log'))
                 outs[vname] = (o, size, gz)
                 chk.coverage['evaluations'] += 1
+            # the same case searched together with a second (plain) file, so
+            # that worker processes and the shared store are used: the
+            # compressed copy must read back like the plain one there too
+            if idx % 5 == 0 and data:
+                pouts = {}
+                other = G.gen_log(chk.rng, 6)
+                for vname, gz in variants(chk.rng, data)[:2]:
+                    d2 = os.path.join(base, f"p_{vname}")
+                    skrun.materialise(d2, {'x.log': (data, gz),
+                                           'other.log': (other, None)})
+                    r2 = dict(run_, adds=[[a[0], nm, a[2]]
+                                          for a in run_['adds']
+                                          for nm in ('x.log', 'other.log')])
+                    rr = skrun.run_fresh({'dir': d2, 'constraints': cons,
+                                          'defs': defs, 'runs': [r2]},
+                                         timeout=120, workdir=base)
+                    pouts[vname] = rr['obs'][0] if rr['obs'] else \
+                        {'exc': 'no-answer', 'results': None, 'stats': None}
+                    chk.coverage['evaluations'] += 1
+                a, b = pouts['plain'], pouts['gzip']
+                if (a['exc'], a['results'], a['stats']) != \
+                        (b['exc'], b['results'], b['stats']):
+                    chk.violation(
+                        "gzip-differs-from-plain in a multi-file run "
+                        + ("exception" if a['exc'] != b['exc'] else
+                           "results" if a['results'] != b['results']
+                           else "stats"),
+                        {'content': data[:2000].decode('latin-1'),
+                         'constraints': cons, 'defs': defs, 'run': run_,
+                         'plain': a, 'compressed': b})
+                chk.dist('parallel_pair')
+            # the path's content is REPLACED by a shorter one and the same
+            # searcher (and constraint object) runs again: plain and gzip
+            # must still agree with each other
+            if idx % 4 == 1 and len(data) > 200 and run_['global'] is not None:
+                houts = {}
+                short = data[:len(data) // 3]
+                short = short[:short.rfind(b'\n') + 1] or short
+                for vname, gz in variants(chk.rng, data)[:2]:
+                    d3 = os.path.join(base, f"h_{vname}")
+                    skrun.materialise(d3, {'x.log': (data, gz)})
+                    r3 = dict(run_, adds=[[a[0], 'x.log', a[2]]
+                                          for a in run_['adds']])
+                    first = skrun.run_here({'dir': d3, 'constraints': cons,
+                                            'defs': defs, 'runs': [r3]})
+                    import sk_child
+                    # second run of the same objects needs one recipe:
+                    skrun.materialise(d3, {'x.log': (data, gz)})
+                    rec = {'dir': d3, 'constraints': cons, 'defs': defs,
+                           'runs': [r3, dict(r3, new_searcher=False,
+                                             replace={'x.log': short.decode(
+                                                 'latin-1'),
+                                                 '_gz': gz})]}
+                    houts[vname] = skrun.run_here(rec)
+                    chk.coverage['evaluations'] += 1
+                pa = [(o['exc'], o['results'], o['stats'])
+                      for o in houts['plain']]
+                gb = [(o['exc'], o['results'], o['stats'])
+                      for o in houts['gzip']]
+                if pa != gb:
+                    chk.violation(
+                        "gzip-differs-from-plain after the file was replaced",
+                        {'content': data[:1500].decode('latin-1'),
+                         'short_len': len(short), 'constraints': cons,
+                         'defs': defs, 'run': run_, 'plain': houts['plain'],
+                         'compressed': houts['gzip']})
+                chk.dist('replaced_content_history')
             ref = outs['plain'][0]
             for vname in ('gzip', 'multi'):
                 o = outs[vname][0]
